@@ -3,6 +3,7 @@ package bpv7
 import (
 	"bytes"
 	"fmt"
+	"io"
 	"math"
 	"sort"
 	"sync"
@@ -111,6 +112,70 @@ func vfWrite(b *Bundle) ([]byte, error) {
 
 func vfParse(raw []byte) (Bundle, error) {
 	return ParseBundle(bytes.NewReader(raw))
+}
+
+// vfChunkReader delivers its data in pieces: every Read returns at most the next size of a cyclic
+// list (a network connection, a pipe, a decompressor and bufio all behave like this; io.Reader
+// allows it). The sizes are derived deterministically from the data.
+type vfChunkReader struct {
+	data  []byte
+	sizes []int
+	i     int
+}
+
+func (r *vfChunkReader) Read(p []byte) (int, error) {
+	if len(r.data) == 0 {
+		return 0, io.EOF
+	}
+	n := r.sizes[r.i%len(r.sizes)]
+	r.i++
+	if n > len(p) {
+		n = len(p)
+	}
+	if n > len(r.data) {
+		n = len(r.data)
+	}
+	copy(p, r.data[:n])
+	r.data = r.data[n:]
+	return n, nil
+}
+
+// vfParseChunked parses raw through a reader that returns short reads. mode 0: one byte at a
+// time; otherwise a cyclic pattern of small sizes derived from mode.
+func vfParseChunked(raw []byte, mode uint64) (Bundle, error) {
+	sizes := []int{1}
+	if mode != 0 {
+		x := mode*0x9E3779B97F4A7C15 + 1
+		sizes = nil
+		for k := 0; k < 7; k++ {
+			x ^= x << 13
+			x ^= x >> 7
+			x ^= x << 17
+			sizes = append(sizes, 1+int(x%9))
+		}
+	}
+	return ParseBundle(&vfChunkReader{data: raw, sizes: sizes})
+}
+
+// vfReaderIndependent checks that the parser's verdict on raw does not depend on how the reader
+// delivers the bytes; it returns a description of the disagreement or "".
+func vfReaderIndependent(raw []byte, accepted bool, want []byte) string {
+	if len(raw) > 20000 {
+		return ""
+	}
+	for _, mode := range []uint64{0, uint64(len(raw)) + 1, uint64(len(raw))*31 + 7} {
+		b, err := vfParseChunked(raw, mode)
+		if (err == nil) != accepted {
+			return fmt.Sprintf("verdict depends on the reader: accepted=%v from a bytes.Reader, error %v from a reader returning short reads (pattern %d)", accepted, err, mode)
+		}
+		if err == nil && want != nil {
+			got, werr := vfWrite(&b)
+			if werr != nil || !bytes.Equal(got, want) {
+				return fmt.Sprintf("the bundle parsed from a reader returning short reads (pattern %d) re-serialises differently (err %v)", mode, werr)
+			}
+		}
+	}
+	return ""
 }
 
 // vfBlockData returns the block-type specific data as the code serialises it.
